@@ -70,6 +70,12 @@ def exit_scenarios(rng, n):
                 pool['start_method'] = 'fork'
             pool.pop('keep_alive', None)
             pool.pop('order_tasks', None)
+        if cause in ('task_exc', 'sigint', 'terminate_during_imap', 'abandoned_imap') and pool['start_method'] == 'fork' and rng.random() < .35:
+            # one task cannot be interrupted for a few seconds (it swallows whatever is raised into it): the forced shutdown has
+            # to wait for it or kill it, but may not forget it
+            victim = rng.randrange(nn)
+            if victim not in (op.get('fail') or {}).get('at', ()):
+                op['stubborn'] = {str(victim): rng.choice([2.5, 4.0, 7.0])}
         # cycles: the same thing several times on one pool accumulates nothing
         reps = rng.choice([1, 1, 2, 3]) if cause not in ('sigkill', 'sigint', 'abandoned_imap', 'mixed_map', 'terminate_during_imap') else 1
         sc['ops'] = [copy.deepcopy(o) for _ in range(reps) for o in ops]
